@@ -362,6 +362,9 @@ impl Prop for C19 {
         if let Some(e) = run.harness_error.clone() {
             harness_error.get_or_insert(e);
         }
+        if out.abort == Some(sim::Abort::Stuck) {
+            harness_error.get_or_insert("scheduler stuck: no runnable task".into());
+        }
         let mut violations = vec![];
         let mut ostats = oracle::OracleStats::default();
         if harness_error.is_none() {
